@@ -990,6 +990,11 @@ func SameValue(a, b ssa.Value) bool {
 
 // BypassExists: is there a path from instruction w to a commit return that does not execute instruction d?
 func (p *Program) BypassExists(fn *ssa.Function, w, d ssa.Instruction, commitAll bool) *ssa.Return {
+	return p.BypassExistsAvoiding(fn, w, d, commitAll, nil)
+}
+
+// BypassExistsAvoiding is BypassExists with additional CFG edges excluded (e.g. the failure edge of w itself).
+func (p *Program) BypassExistsAvoiding(fn *ssa.Function, w, d ssa.Instruction, commitAll bool, avoid map[Edge]bool) *ssa.Return {
 	wb, db := w.Block(), d.Block()
 	if wb == db && instrIndex(d) > instrIndex(w) {
 		return nil // d always follows w in the same block
@@ -997,6 +1002,9 @@ func (p *Program) BypassExists(fn *ssa.Function, w, d ssa.Instruction, commitAll
 	// forbid entering db (d is the first relevant thing there: conservative—entering db means executing d
 	// only if d precedes the block's exit, which always holds)
 	blocked := map[Edge]bool{}
+	for e := range avoid {
+		blocked[e] = true
+	}
 	for _, b := range fn.Blocks {
 		for i, s := range b.Succs {
 			if s == db {
@@ -1064,4 +1072,93 @@ func (p *Program) FlagImplies(fn *ssa.Function, g GuardMatch) GuardMatch {
 		memo[ca.X] = ok && nTrue > 0
 		return memo[ca.X]
 	}
+}
+
+// ---------- bank call instances along call paths ----------
+
+// BankInstance is one bank call reached from an entry function along a specific chain of call sites.
+type BankInstance struct {
+	Op    *BankOp
+	Stack []ssa.CallInstruction // call sites from the entry down to the function holding Op
+}
+
+// BankInstances enumerates bank calls reachable from entry, one instance per call path (depth-limited, no recursion).
+func (p *Program) BankInstances(entry *ssa.Function) []BankInstance {
+	var out []BankInstance
+	var walk func(fn *ssa.Function, stack []ssa.CallInstruction, on map[*ssa.Function]bool)
+	walk = func(fn *ssa.Function, stack []ssa.CallInstruction, on map[*ssa.Function]bool) {
+		if on[fn] || len(stack) > 10 {
+			return
+		}
+		on[fn] = true
+		defer delete(on, fn)
+		if len(p.Summary(fn).Bank) == 0 {
+			return
+		}
+		for _, b := range fn.Blocks {
+			for _, in := range b.Instrs {
+				call, ok := in.(ssa.CallInstruction)
+				if !ok {
+					continue
+				}
+				for _, bo := range p.BankOps(fn) {
+					if bo.Instr == call {
+						out = append(out, BankInstance{Op: bo, Stack: append([]ssa.CallInstruction{}, stack...)})
+					}
+				}
+				var callees []*ssa.Function
+				callees = append(callees, p.Callees(call)...)
+				for _, a := range call.Common().Args {
+					if mc, ok := a.(*ssa.MakeClosure); ok {
+						if f, ok := mc.Fn.(*ssa.Function); ok {
+							callees = append(callees, f)
+						}
+					}
+				}
+				for _, cal := range callees {
+					walk(cal, append(stack, call), on)
+				}
+			}
+		}
+	}
+	walk(entry, nil, map[*ssa.Function]bool{})
+	return out
+}
+
+// ResolveAlong rewrites param atoms of the functions on the call path into the entry's context using the
+// arguments at exactly these call sites (unlike ResolveToEntry, which unions over all callers).
+func (p *Program) ResolveAlong(pr Prov, stack []ssa.CallInstruction) Prov {
+	cur := pr
+	for i := len(stack) - 1; i >= 0; i-- {
+		call := stack[i]
+		c := call.Common()
+		var actuals []ssa.Value
+		if c.IsInvoke() {
+			actuals = append(actuals, c.Value)
+		}
+		actuals = append(actuals, c.Args...)
+		callees := map[*ssa.Function]bool{}
+		for _, cal := range p.Callees(call) {
+			callees[cal] = true
+		}
+		for _, a := range c.Args {
+			if mc, ok := a.(*ssa.MakeClosure); ok {
+				if f, ok := mc.Fn.(*ssa.Function); ok {
+					callees[f] = true
+				}
+			}
+		}
+		next := Prov{}
+		for _, a := range cur {
+			if a.Kind == "param" && callees[a.Fn] && a.Fn.Parent() == nil {
+				if a.Idx >= 0 && a.Idx < len(actuals) {
+					next.union(p.ProvAt(actuals[a.Idx], a.Path, call))
+					continue
+				}
+			}
+			next.add(a)
+		}
+		cur = next
+	}
+	return cur
 }
